@@ -43,11 +43,35 @@ class TaggedDevice:
         self.rng = rng
         self.tags = threading.local()
 
+    # link model: a read error loses the host's read, not the device's answer - the answer stays in
+    # the link's buffer and is what the next read on the same (not re-opened) link returns
+    fault_in = None          # the n-th exchange from now fails with a read error
+    stale = None
+    world = None
+
+    def opens(self):
+        return len([e for e in self.world.trace if e[0] == "C"]) if self.world is not None else 0
+
     def __call__(self, apdu):
         tag = getattr(self.tags, "current", None)
         self.log.append((tag, bytes(apdu)))
         if self.delay:
             time.sleep(self.rng.random() * self.delay)
+        ans = self.answer(apdu)
+        if self.stale is not None:
+            if self.opens() != self.stale[0]:
+                self.stale = None                  # the link was re-opened: buffer gone
+            else:
+                ans, self.stale = self.stale[1], (self.stale[0], ans)
+        if self.fault_in is not None:
+            self.fault_in -= 1
+            if self.fault_in <= 0:
+                self.fault_in = None
+                self.stale = (self.opens(), ans)
+                return ("R",)
+        return ans
+
+    def answer(self, apdu):
         # sign of a hash: answer derived from the hash so that replies identify requests
         if apdu[1] == 0x02 and len(apdu) == 3 + 21 + 32:
             h = bytes(apdu[24:])
@@ -69,9 +93,10 @@ def expected_reply(dev, req):
     return None
 
 
-def one_round(rng, nclients, delay, seq):
+def one_round(rng, nclients, delay, seq, fault=False):
     dev = TaggedDevice(rng, delay)
     world = env.World(device=dev)
+    dev.world = world
     env.install_transport(world)
     env.set_platform("Ledger")
     dongle = HSM2Dongle(False)
@@ -115,6 +140,22 @@ def one_round(rng, nclients, delay, seq):
         else:
             reqs.append({"command": "advanceBlockchain", "version": 5, "blocks": [hdr.hex()],
                          "brothers": [[]]})
+    if fault:
+        # one earlier request loses the link in the middle of its exchanges
+        pre = rng.choice([{"command": "blockchainState", "version": 5},
+                          {"command": "signerHeartbeat", "version": 5, "udValue": "%032x" % 77},
+                          {"command": "getPubKey", "version": 5, "keyId": gen.PATHS[0]}])
+        dev.fault_in = rng.randint(1, {"blockchainState": 9, "signerHeartbeat": 4, "getPubKey": 1}[pre["command"]])
+        s = socket.create_connection(("127.0.0.1", port), timeout=20)
+        s.sendall(json.dumps(pre).encode() + b"\n")
+        buf = b""
+        while not buf.endswith(b"\n"):
+            chunk = s.recv(65536)
+            if not chunk:
+                break
+            buf += chunk
+        s.close()
+        dev.pre_reply = buf
     replies = [None] * nclients
     start = threading.Barrier(nclients)
 
@@ -145,10 +186,14 @@ def one_round(rng, nclients, delay, seq):
 
 
 def contiguous(log):
+    """every request's exchanges form one block; an exchange that belongs to no request (tag None,
+    e.g. made by a helper thread) may not fall inside a block either. Exchanges before the first
+    request (start-up) are not considered."""
+    first = next((i for i, (tag, _) in enumerate(log) if tag is not None), len(log))
     seen, cur = set(), None
-    for tag, _ in log:
+    for k, (tag, _) in enumerate(log[first:]):
         if tag is None:
-            continue
+            tag = ("foreign", k)
         if tag != cur:
             if tag in seen:
                 return False
@@ -165,13 +210,14 @@ def run(ctx):
            "samples": [], "distribution": {"clients": {}, "apdus": 0}, "corr_errors": [], "notes": []}
     for r in range(rounds):
         n = rng.randint(2, 16)
-        dev, reqs, replies = one_round(rng, n, 0.002 if r % 2 else 0.0005, r)
+        dev, reqs, replies = one_round(rng, n, 0.002 if r % 2 else 0.0005, r, fault=(r % 3 == 2))
         res["evaluations"] += 1
         res["distinct"] += 1
         res["distribution"]["clients"][n] = res["distribution"]["clients"].get(n, 0) + 1
         log = [e for e in dev.log if e[0] is not None]
         res["distribution"]["apdus"] += len(log)
-        if not contiguous(log):
+        res["distribution"]["fault_rounds"] = res["distribution"].get("fault_rounds", 0) + (1 if r % 3 == 2 else 0)
+        if not contiguous(dev.log):
             res["violations"].append({"key": "C12:interleaved", "what": "APDUs of different requests "
                                       "interleave on the device", "tags": [str(t) for t, _ in log][:60]})
         untagged = [a.hex() for t_, a in dev.log if t_ is None][4:]
